@@ -102,6 +102,10 @@ pub fn world_for(mode: Mode, rng: &mut Prng) -> (WorldCfg, AmtClass) {
         // a native denomination spelled exactly like the first token contract's address
         natives.push("contract0".into());
     }
+    if rng.chance(1, 5) {
+        // a denomination that differs from another one only in letter case (distinct for the bank)
+        natives.push("UATOM".into());
+    }
     let mut users = rng.range(3, 5) as usize;
     let mut n_cw20 = rng.range(1, 3) as usize;
     let mut nfts_per_user = rng.range(2, 3) as usize;
